@@ -120,7 +120,31 @@ def audit_groups(cfg: dict, groups: list, nss: list):
     return out, res
 
 
+def long_graphs_case(ctx, rng):
+    """Thousands of quads in a few long same-graph runs through the generic GraphStream: still one graph block per run."""
+    n = 2600 if ctx.tier == "quick" else 12000
+    graphs = [("iri", "http://ex.org/g/a"), ("default",), ("bnode", "gb")]
+    stmts = []
+    g = graphs[0]
+    for k in range(n):
+        if k and rng.random() < 0.0015:
+            g = rng.choice([x for x in graphs if x != g])
+        stmts.append((("iri", f"http://ex.org/s/{k % 7}"), ("iri", "http://ex.org/p"), ("lit", str(k % 50), None, None), g))
+    cfg = {"integration": "generic", "physical": 3, "entry": rng.choice(["stream_frames_gen", "stream_frames_sink"]),
+           "frame_size": 250, "preset": (64, 8, 0), "delimited": True, "logical": 2, "generalized": True, "rdf_star": True,
+           "ns": False, "stream_name": ""}
+    ws, res = audit_case(cfg, stmts, [])
+    ctx.observe("long-graphs-streams")
+    if res is not None:
+        ctx.observe("streams-audited")
+    for w in ws:
+        w.update({"cfg": cfg, "stmts": T.to_json(stmts[:5]), "ns": [], "note": f"{n} quads; witness truncated"})
+        ctx.violation(w)
+    ctx.case(("long-graphs", ctx.shard, n), res is not None, sample={"kind": "long GRAPHS stream", "quads": n})
+
+
 def run_shard(ctx):
+    long_graphs_case(ctx, ctx.rng("long-graphs"))
     i = 0
     while not ctx.out_of_time():
         rng = ctx.rng(i)
